@@ -328,6 +328,64 @@ def shapeOfList : List Val → Option (List Nat)
     | _, _ => none
 end
 
+/-! ## Date / time conversions (`DatetimeConverter`) -/
+
+/-- one cell of the conversion table of `DatetimeConverter.try_convert` for typed input -/
+inductive DtCell
+  | same                    -- the value itself (`id` cells)
+  | call (name : String)    -- a method call: `val.date()`, `val.time()`, `datetime.combine(val, time())`
+  | refuse                  -- `ParseInterrupt`
+  deriving DecidableEq, Repr, Inhabited
+
+/-- the table: target class `ty`, class `k` of the value (`Val.dtKind`: a `datetime` is tested first)
+
+```
+                 input:   date        datetime    time
+  output:  date           id          .date()     error
+       datetime           combine     id          error
+           time           error       .time()     id
+``` -/
+def dtCell (ty k : String) : DtCell :=
+  if k == "datetime" then
+    if ty == "datetime" then .same
+    else if ty == "date" then .call "dt:date"
+    else if ty == "time" then .call "dt:time"
+    else .refuse
+  else if k == "time" then (if ty == "time" then .same else .refuse)
+  else if k == "date" then
+    if ty == "date" then .same
+    else if ty == "datetime" then .call "dt:combine"
+    else .refuse
+  else .refuse
+
+/-- `DatetimeConverter.try_convert` on a value that is not a `str`: the `isinstance` chain.  The three
+method calls are externals; the source does not guard them, so an exception of theirs leaks. -/
+def dtTryTyped (E : Ext) (ty : String) (v : Val) : Outcome Val :=
+  match v.dtKind with
+  | some k =>
+    match dtCell ty k with
+    | .same => .ok v
+    | .call name =>
+      match E.call name v with
+      | .ok x => .ok x
+      | .error e => .leak e
+    | .refuse => .interrupt
+  | none => .interrupt
+
+/-- `DatetimeConverter.collect_errors` on a value that is not a `str`: the same `isinstance` chain, but
+the diagnostic pass calls nothing -/
+def dtAccepts (ty : String) (v : Val) : Bool :=
+  match v.dtKind with
+  | some k => dtCell ty k != .refuse
+  | none => false
+
+/-- the three method calls of the cross cells succeed on values of the class they are methods of
+(`datetime.date()`, `datetime.time()` on a `datetime`; `datetime.combine(d, time())` on a `date`) -/
+structure DtTotal (E : Ext) : Prop where
+  date_of_datetime : ∀ v, v.dtKind = some "datetime" → ∃ x, E.call "dt:date" v = .ok x
+  time_of_datetime : ∀ v, v.dtKind = some "datetime" → ∃ x, E.call "dt:time" v = .ok x
+  combine_of_date : ∀ v, v.dtKind = some "date" → ∃ x, E.call "dt:combine" v = .ok x
+
 /-! ## The pass -/
 
 mutual
@@ -340,8 +398,7 @@ def tryC (E : Ext) : Conv → Val → Outcome Val
   | .datetime ty, v =>
     match v with
     | .str _ => guardTry (Facts.catches .datetimeTry) (E.call ("fromiso:" ++ ty) v)
-    | .opaque t _ => if t == ty then .ok v else .interrupt
-    | _ => .interrupt
+    | _ => dtTryTyped E ty v
   | .literal vals, v => if vals.any (Val.pyEq v) then .ok v else .interrupt
   | .union cs, v => firstOk (tryCs E cs) v
   | .tagged cs _tag tagMap layout, v =>
